@@ -91,11 +91,15 @@ const c08Name = "S"
 var c08Families = []string{"kirkpatrick", "suppapitnarm", "averaged"}
 
 // the alias translator also walks the two test models the shipped Dumb*Annealer configurations use
-var c08AliasOnlyFamilies = []string{"kirkpatrick+dumb", "suppapitnarm+modumb"}
+// "+preinit": the configured model has been initialised before the run clones are taken, as the engine does when it
+// remembers the model state (the command-line interpreter only initialises a trial clone)
+var c08AliasOnlyFamilies = []string{"kirkpatrick+dumb", "suppapitnarm+modumb", "kirkpatrick+preinit", "suppapitnarm+preinit"}
 
 func c08BuildAnnealer(family string, n int, t0, cf float64) (annealing.Annealer, error) {
 	modelConfig := &data.ModelConfig{Type: "CatchmentModel", Parameters: parameters.Map{"DataSourcePath": c08DataSource}}
 	objective := "SedimentProduction"
+	preinit := strings.HasSuffix(family, "+preinit")
+	family = strings.TrimSuffix(family, "+preinit")
 	switch family {
 	case "kirkpatrick+dumb":
 		modelConfig, objective, family = &data.ModelConfig{Type: "DumbModel"}, "ObjectiveValue", "kirkpatrick"
@@ -127,6 +131,9 @@ func c08BuildAnnealer(family string, n int, t0, cf float64) (annealing.Annealer,
 		return nil, ai.Errors()
 	}
 	a := ai.Annealer()
+	if preinit {
+		mi.Model().Initialise(model.AsIs)
+	}
 	a.SetModel(mi.Model())
 	return a, nil
 }
